@@ -86,8 +86,10 @@ func (c *Collection) CreateIndex(indexName string, expression string, filterExpr
 
 	// Note that we prepend `id` to the index columns, since the Query interface always
 	// evaluates a SELECT statement that matches the `id` with the specified Collection.
-	stmt := fmt.Sprintf(`CREATE INDEX %s ON documents (id, %s) WHERE value NOT NULL`,
-		indexName, expression)
+	// (The index is partial on this collection: its expression must not be evaluated over, or keep out, the
+	// documents of other collections, e.g. their non-JSON bodies.)
+	stmt := fmt.Sprintf(`CREATE INDEX %s ON documents (id, %s) WHERE collection=%d AND value NOT NULL`,
+		indexName, expression, c.id)
 	if filterExpression != "" {
 		stmt += ` AND ` + filterExpression
 	}
